@@ -264,6 +264,14 @@ func RunC10(c *Ctx) {
 	process := func(cs *h.Case) {
 		d := cs.Input
 		var fresh rjson.Buffer
+		// half of the inputs go through the handler traversals FIRST and the plain entry points
+		// afterwards, so that both the per-input and the long-lived Buffer also meet the skip
+		// machines in the state the handler machines leave them in (seeded change C10r2-m2)
+		handlersFirst := h.Hash(d)&1 == 1
+		if handlersFirst {
+			c.Rec.C("inputs_with_handler_traversals_first")
+			hostile(c, cs, d, &fresh, &long)
+		}
 		for _, call := range allAPI {
 			call := call
 			c.LC.SetMeta("C10 " + call.name)
@@ -287,87 +295,8 @@ func RunC10(c *Ctx) {
 				}
 			})
 		}
-		// hostile handler programs
-		nprog := 6
-		if c.Thorough() {
-			nprog = 16
-		}
-		me := &memberEnds{doc: d, m: map[int]int{}}
-		for kind := 0; kind < 2; kind++ {
-			for prog := 0; prog < nprog; prog++ {
-				r := workload.NewRand(c.Seed, h.Hash(d)+uint64(prog)*131+uint64(kind))
-				pr := &probe{doc: d}
-				if len(d) > 100000 {
-					pr.limit = 64
-				}
-				mustFail := false
-				why := ""
-				classes := map[string]int{}
-				big := len(d) > 100000
-				pr.answer = func(i, off int, data []byte) (int, error) {
-					if i > 64 && big { // bound the work on megabyte inputs
-						return 0, nil
-					}
-					exact := 0
-					if !big {
-						if e := me.end(off); e > 0 {
-							exact = e
-						}
-					}
-					ret, class := hostileOffset(r, len(data), exact)
-					scalar := true
-					if len(data) > 0 && (data[0] == '"' || data[0] == '[' || data[0] == '{') {
-						scalar = false
-					}
-					if scalar {
-						classes["ignored_scalar_member"]++
-					} else {
-						classes[class]++
-						if ret < 0 || ret > len(data) {
-							if !mustFail {
-								why = fmt.Sprintf("call %d on %s member returned %d with %d bytes remaining", i, memberKindAt(d, off), ret, len(data))
-							}
-							mustFail = true
-						}
-					}
-					return ret, nil
-				}
-				buf := bufOf(prog, &fresh, &long)
-				var p int
-				var err error
-				c.LC.SetMeta(fmt.Sprintf("C10 %s hostile program %d", kindName[kind], prog))
-				if c.Guarded(cs, kindName[kind]+" (hostile handler)", func() { p, err = traverse(kind, d, pr, buf) }) {
-					continue
-				}
-				c.Rec.Evals(1)
-				c.Rec.C("hostile_programs_run")
-				for k, n := range classes {
-					c.Rec.Count("hostile_offsets_"+k, int64(n))
-				}
-				script := fmt.Sprintf("hostile program %d: %s", prog, logString(pr.log))
-				if err == nil && (p < 0 || p > len(d)) {
-					c.Rec.AddViolation(h.Violation{Property: c.Prop, Oracle: "offset outside [0,len] returned with a nil error", Entry: kindName[kind], Family: cs.Family, Desc: cs.Describe(), InputB64: b64(d), InputQ: h.Quote(d), Script: script, Expected: fmt.Sprintf("0 <= p <= %d", len(d)), Observed: fmt.Sprintf("p=%d", p), Seed: c.Seed, Tier: c.Tier})
-				}
-				if mustFail {
-					c.Rec.C("out_of_range_offsets_that_must_be_reported")
-					if err == nil {
-						c.Rec.AddViolation(h.Violation{Property: c.Prop, Oracle: "handler offset that does not fit inside the input is not reported as an error", Entry: kindName[kind], Family: cs.Family, Desc: cs.Describe(), InputB64: b64(d), InputQ: h.Quote(d), Script: script, Expected: "error (" + why + ")", Observed: fmt.Sprintf("p=%d err=<nil>", p), Seed: c.Seed, Tier: c.Tier})
-					}
-				}
-				if c.Rec.WantSample() && mustFail && len(pr.log) > 1 && c.Rec.R.Cases%997 == 1 {
-					c.Rec.Sample(map[string]interface{}{"input": h.Quote(d), "how": cs.Describe(), "entry": kindName[kind], "program": script, "p": p, "err": errStr(err)})
-				}
-			}
-			// the generic decoder itself as the handler (documented use of ValueReader)
-			c.Guarded(cs, kindName[kind]+" (ValueReader as handler via ReadValue)", func() {
-				var v2 rjson.ValueReader
-				if kind == 0 {
-					v2.ReadArray(d)
-				} else {
-					v2.ReadObject(d)
-				}
-				c.Rec.Evals(1)
-			})
+		if !handlersFirst {
+			hostile(c, cs, d, &fresh, &long)
 		}
 		c.Rec.Max("max_input_length", int64(len(d)))
 	}
@@ -494,6 +423,93 @@ func RunC10(c *Ctx) {
 	flush()
 	if guard != nil {
 		guard.Close()
+	}
+}
+
+// hostile runs both traversals under hostile handler programs, then the generic decoder as handler.
+func hostile(c *Ctx, cs *h.Case, d []byte, freshp, longp *rjson.Buffer) {
+	fresh, long := freshp, longp
+	// hostile handler programs
+	nprog := 6
+	if c.Thorough() {
+		nprog = 16
+	}
+	me := &memberEnds{doc: d, m: map[int]int{}}
+	for kind := 0; kind < 2; kind++ {
+		for prog := 0; prog < nprog; prog++ {
+			r := workload.NewRand(c.Seed, h.Hash(d)+uint64(prog)*131+uint64(kind))
+			pr := &probe{doc: d}
+			if len(d) > 100000 {
+				pr.limit = 64
+			}
+			mustFail := false
+			why := ""
+			classes := map[string]int{}
+			big := len(d) > 100000
+			pr.answer = func(i, off int, data []byte) (int, error) {
+				if i > 64 && big { // bound the work on megabyte inputs
+					return 0, nil
+				}
+				exact := 0
+				if !big {
+					if e := me.end(off); e > 0 {
+						exact = e
+					}
+				}
+				ret, class := hostileOffset(r, len(data), exact)
+				scalar := true
+				if len(data) > 0 && (data[0] == '"' || data[0] == '[' || data[0] == '{') {
+					scalar = false
+				}
+				if scalar {
+					classes["ignored_scalar_member"]++
+				} else {
+					classes[class]++
+					if ret < 0 || ret > len(data) {
+						if !mustFail {
+							why = fmt.Sprintf("call %d on %s member returned %d with %d bytes remaining", i, memberKindAt(d, off), ret, len(data))
+						}
+						mustFail = true
+					}
+				}
+				return ret, nil
+			}
+			buf := bufOf(prog, fresh, long)
+			var p int
+			var err error
+			c.LC.SetMeta(fmt.Sprintf("C10 %s hostile program %d", kindName[kind], prog))
+			if c.Guarded(cs, kindName[kind]+" (hostile handler)", func() { p, err = traverse(kind, d, pr, buf) }) {
+				continue
+			}
+			c.Rec.Evals(1)
+			c.Rec.C("hostile_programs_run")
+			for k, n := range classes {
+				c.Rec.Count("hostile_offsets_"+k, int64(n))
+			}
+			script := fmt.Sprintf("hostile program %d: %s", prog, logString(pr.log))
+			if err == nil && (p < 0 || p > len(d)) {
+				c.Rec.AddViolation(h.Violation{Property: c.Prop, Oracle: "offset outside [0,len] returned with a nil error", Entry: kindName[kind], Family: cs.Family, Desc: cs.Describe(), InputB64: b64(d), InputQ: h.Quote(d), Script: script, Expected: fmt.Sprintf("0 <= p <= %d", len(d)), Observed: fmt.Sprintf("p=%d", p), Seed: c.Seed, Tier: c.Tier})
+			}
+			if mustFail {
+				c.Rec.C("out_of_range_offsets_that_must_be_reported")
+				if err == nil {
+					c.Rec.AddViolation(h.Violation{Property: c.Prop, Oracle: "handler offset that does not fit inside the input is not reported as an error", Entry: kindName[kind], Family: cs.Family, Desc: cs.Describe(), InputB64: b64(d), InputQ: h.Quote(d), Script: script, Expected: "error (" + why + ")", Observed: fmt.Sprintf("p=%d err=<nil>", p), Seed: c.Seed, Tier: c.Tier})
+				}
+			}
+			if c.Rec.WantSample() && mustFail && len(pr.log) > 1 && c.Rec.R.Cases%997 == 1 {
+				c.Rec.Sample(map[string]interface{}{"input": h.Quote(d), "how": cs.Describe(), "entry": kindName[kind], "program": script, "p": p, "err": errStr(err)})
+			}
+		}
+		// the generic decoder itself as the handler (documented use of ValueReader)
+		c.Guarded(cs, kindName[kind]+" (ValueReader as handler via ReadValue)", func() {
+			var v2 rjson.ValueReader
+			if kind == 0 {
+				v2.ReadArray(d)
+			} else {
+				v2.ReadObject(d)
+			}
+			c.Rec.Evals(1)
+		})
 	}
 }
 
